@@ -183,6 +183,34 @@ def rule_zero_cost(ctx, px, rule_id: str):
         "when bit_length is 32 or 64; every other return is False",
     )
     f = px.func("nunavut.lang.c", "is_zero_cost_primitive")
+    # a ladder written as a loop over a module-level table of (kind, predicate) rows is the ladder: the table is put in place of its
+    # name, the loop written out, and `(lambda x: body)(a)` reduced to body[x := a]
+    import copy as _copy
+    fnode = _copy.deepcopy(f.node)
+    consts_ = {st_.targets[0].id: st_.value for st_ in f.module.tree.body if isinstance(st_, ast.Assign) and len(st_.targets) == 1 and isinstance(st_.targets[0], ast.Name)
+               and isinstance(st_.value, (ast.Tuple, ast.List))}
+    changed_ = False
+    for lp_ in ast.walk(fnode):
+        if isinstance(lp_, ast.For) and isinstance(lp_.iter, ast.Name) and lp_.iter.id in consts_:
+            lp_.iter = _copy.deepcopy(consts_[lp_.iter.id])
+            changed_ = True
+    if changed_:
+        fnode = pyfront.unroll_literal_loops(fnode)
+
+        class _Beta(ast.NodeTransformer):
+            def visit_Call(self, node):
+                self.generic_visit(node)
+                if isinstance(node.func, ast.Lambda) and not node.keywords and len(node.args) == len(node.func.args.args):
+                    env_ = {a_.arg: v_ for a_, v_ in zip(node.func.args.args, node.args)}
+
+                    class _S(ast.NodeTransformer):
+                        def visit_Name(self, n_):
+                            return _copy.deepcopy(env_[n_.id]) if isinstance(n_.ctx, ast.Load) and n_.id in env_ else n_
+                    return _S().visit(_copy.deepcopy(node.func.body))
+                return node
+        fnode = ast.fix_missing_locations(_Beta().visit(fnode))
+        f = _copy.copy(f)
+        f.node = fnode
     ps = [a.arg for a in f.node.args.args]
     if len(ps) < 2:
         raise AnalysisError("anchor changed: is_zero_cost_primitive(language, t)")
